@@ -25,6 +25,7 @@ type c03Env struct {
 	c       *chainkit.Chain
 	h       map[string]util.Uint160
 	u0, u1  neotest.SingleSigner
+	u2      neotest.SingleSigner
 	node    neotest.SingleSigner
 	ir      []*keys.PrivateKey
 	cand    neotest.SingleSigner
@@ -33,6 +34,7 @@ type c03Env struct {
 	strng   neotest.SingleSigner
 	watch   []util.Uint160
 	sigKeys []*keys.PrivateKey
+	seq     int // bumped for every class tried (lets argument tuples stay fresh)
 }
 
 func newC03Env(n int) *c03Env {
@@ -42,6 +44,7 @@ func newC03Env(n int) *c03Env {
 	e := &c03Env{c: c, h: fs.H}
 	alpha := []neotest.Signer{c.Alphabet}
 	e.u0, e.u1 = chainkit.NamedUser("c03-u0"), chainkit.NamedUser("c03-u1")
+	e.u2 = chainkit.NamedUser("c03-u2")
 	e.node = chainkit.NamedUser("c03-node")
 	e.cand = chainkit.NamedUser("c03-cand")
 	e.strng = chainkit.NamedUser("c03-stranger")
@@ -95,6 +98,8 @@ func newC03Env(n int) *c03Env {
 	// an NNS name of u0 with a record
 	must("register", c.Invoke([]neotest.Signer{e.u0}, e.h["nns"], "register", "c03.neofs", e.u0.ScriptHash(), "m@nspcc.io", int64(1), int64(2), int64(31536000), int64(3)))
 	must("addRecord", c.Invoke([]neotest.Signer{e.u0}, e.h["nns"], "addRecord", "c03.neofs", recTXT, "initial"))
+	// u1 is the name's delegated admin: delegation must not widen what only the owner may do
+	must("setAdmin", c.Invoke([]neotest.Signer{e.u0, e.u1}, e.h["nns"], "setAdmin", "c03.neofs", e.u1.ScriptHash()))
 	// funds
 	gas := c.NativeHash(nativenames.Gas)
 	must("deposit", c.Invoke([]neotest.Signer{e.u1}, gas, "transfer", e.u1.ScriptHash(), e.h["neofs"], 50*gasUnit, nil))
@@ -119,12 +124,15 @@ const (
 )
 
 type c03Row struct {
-	req    string
-	args   func(e *c03Env) []any
-	key    func(e *c03Env) neotest.Signer // the named key
-	key2   func(e *c03Env) neotest.Signer
-	falsey bool   // refusal is HALT(false)
-	target string // key in e.h when it is not the contract name
+	req  string
+	args func(e *c03Env) []any
+	key  func(e *c03Env) neotest.Signer // the named key
+	key2 func(e *c03Env) neotest.Signer
+	// delegate: a key that holds a delegated (weaker or equal) right on the object, e.g. an NNS admin
+	delegate        func(e *c03Env) neotest.Signer
+	delegateAllowed bool
+	falsey          bool   // refusal is HALT(false)
+	target          string // key in e.h when it is not the contract name
 }
 
 func same(args ...any) func(*c03Env) []any { return func(*c03Env) []any { return args } }
@@ -223,20 +231,20 @@ func c03Table() map[string]c03Row {
 		"netmap.updateState/2":          {req: reqKeyAlpha, args: func(e *c03Env) []any { return []any{int64(3), pub(e.node)} }, key: node},
 		"netmap.updateStateIR/2":        {req: reqAlphabet, args: func(e *c03Env) []any { return []any{int64(3), pub(e.node)} }},
 		// ---- nns
-		"nns.addRecord/3":     {req: reqKey, args: same("c03.neofs", recTXT, "more"), key: u0},
-		"nns.deleteRecords/2": {req: reqKey, args: same("c03.neofs", recTXT), key: u0},
+		"nns.addRecord/3":     {req: reqKey, args: func(e *c03Env) []any { return []any{"c03.neofs", recTXT, fmt.Sprintf("more-%d", e.seq)} }, key: u0, delegate: u1, delegateAllowed: true},
+		"nns.deleteRecords/2": {req: reqKey, args: same("c03.neofs", recTXT), key: u0, delegate: u1, delegateAllowed: true},
 		"nns.register/7": {req: reqKey, args: func(e *c03Env) []any {
 			return []any{"new.neofs", e.u1.ScriptHash(), "m@nspcc.io", int64(1), int64(2), int64(1000), int64(3)}
 		}, key: u1},
 		"nns.registerTLD/6": {req: reqCommittee, args: same("newtld", "m@nspcc.io", int64(1), int64(2), int64(1000), int64(3))},
-		"nns.renew/2":       {req: reqKey, args: same("c03.neofs", int64(1)), key: u0},
-		"nns.renew/1":       {req: reqKey, args: same("c03.neofs"), key: u0},
-		"nns.setAdmin/2":    {req: reqTwoKeys, args: func(e *c03Env) []any { return []any{"c03.neofs", e.u1.ScriptHash()} }, key: u0, key2: u1},
+		"nns.renew/2":       {req: reqKey, args: same("c03.neofs", int64(1)), key: u0, delegate: u1, delegateAllowed: true},
+		"nns.renew/1":       {req: reqKey, args: same("c03.neofs"), key: u0, delegate: u1, delegateAllowed: true},
+		"nns.setAdmin/2":    {req: reqTwoKeys, args: func(e *c03Env) []any { return []any{"c03.neofs", e.u2.ScriptHash()} }, key: u0, key2: func(e *c03Env) neotest.Signer { return e.u2 }, delegate: u1},
 		"nns.setPrice/1":    {req: reqCommittee, args: same(int64(5))},
-		"nns.setRecord/4":   {req: reqKey, args: same("c03.neofs", recTXT, int64(0), "replaced"), key: u0},
-		"nns.transfer/3":    {req: reqKey, args: func(e *c03Env) []any { return []any{e.u1.ScriptHash(), []byte("c03.neofs"), nil} }, key: u0, falsey: true},
+		"nns.setRecord/4":   {req: reqKey, args: same("c03.neofs", recTXT, int64(0), "replaced"), key: u0, delegate: u1, delegateAllowed: true},
+		"nns.transfer/3":    {req: reqKey, args: func(e *c03Env) []any { return []any{e.u2.ScriptHash(), []byte("c03.neofs"), nil} }, key: u0, falsey: true, delegate: u1},
 		"nns.update/3":      upd("nns"),
-		"nns.updateSOA/6":   {req: reqKey, args: same("c03.neofs", "n@nspcc.io", int64(2), int64(3), int64(4), int64(5)), key: u0},
+		"nns.updateSOA/6":   {req: reqKey, args: same("c03.neofs", "n@nspcc.io", int64(2), int64(3), int64(4), int64(5)), key: u0, delegate: u1, delegateAllowed: true},
 		// ---- processing / proxy
 		"processing.onNEP17Payment/3": {req: reqCallback, args: func(e *c03Env) []any { return []any{e.u0.ScriptHash(), int64(5), nil} }},
 		"processing.update/3":         {req: reqRole, args: func(e *c03Env) []any { return updateArgs("processing", bumped("processing"), nil) }},
@@ -296,9 +304,21 @@ func (e *c03Env) classes(r c03Row) []c03Class {
 		}
 		return append(cl, c03Class{"the named key and the Alphabet", S(key, alpha), true})
 	case reqKey:
-		return []c03Class{{"nobody relevant (a stranger)", S(e.strng), false}, {"the Alphabet without the named key", S(alpha), false}, {"the committee majority without the named key", S(major), false}, {"the named key", S(key), true}}
+		cl := []c03Class{{"nobody relevant (a stranger)", S(e.strng), false}, {"the Alphabet without the named key", S(alpha), false}, {"the committee majority without the named key", S(major), false}}
+		if r.delegate != nil && !r.delegateAllowed {
+			cl = append(cl, c03Class{"the delegated admin without the owner", S(r.delegate(e)), false})
+		}
+		cl = append(cl, c03Class{"the named key", S(key), true})
+		if r.delegate != nil && r.delegateAllowed {
+			cl = append(cl, c03Class{"the delegated admin (documented alternative to the owner)", S(r.delegate(e)), true})
+		}
+		return cl
 	case reqTwoKeys:
-		return []c03Class{{"nobody relevant (a stranger)", S(e.strng), false}, {"the owner alone", S(key), false}, {"the new admin alone", S(key2), false}, {"the Alphabet and the new admin", S(alpha, key2), false}, {"owner and new admin", S(key, key2), true}}
+		cl := []c03Class{{"nobody relevant (a stranger)", S(e.strng), false}, {"the owner alone", S(key), false}, {"the new admin alone", S(key2), false}, {"the Alphabet and the new admin", S(alpha, key2), false}}
+		if r.delegate != nil {
+			cl = append(cl, c03Class{"the current admin and the new admin, without the owner", S(r.delegate(e), key2), false})
+		}
+		return append(cl, c03Class{"owner and new admin", S(key, key2), true})
 	case reqKeyOrAlph:
 		cl := []c03Class{{"nobody relevant (a stranger)", S(e.strng), false}, {"a single Alphabet member", S(member), false}}
 		if !same {
@@ -424,6 +444,8 @@ func TestC03Matrix(t *testing.T) {
 					panic(chainkit.HarnessError{Msg: "c03: table row " + key + " has the wrong arity"})
 				}
 				for _, cl := range e.classes(row) {
+					e.seq++
+					args = row.args(e)
 					pre := e.c.Snapshot(e.watch...)
 					o := e.c.Invoke(cl.signers, target, u.m.Name, args...)
 					what := fmt.Sprintf("%s (n=%d) invoked by %s", key, n, cl.name)
